@@ -132,6 +132,16 @@ def run_units(task):
                     for _ in range(2):
                         one(hidx, a, a + w)
                         res["evals"] += 1
+    # far from zero: the same decisions on domains whose bounds add up beyond 32 bits (midpoints, value +- 1)
+    for hidx in sorted(names):
+        if names[hidx] == "min_cost":
+            continue
+        for T in (2 ** 30, -(2 ** 30) - 3, 1500000000, -1500000000, 2 ** 31 - 100000, -(2 ** 31) + 100000):
+            for da in (-2, 0, 1):
+                for w in (1, 2, 3, 5, 8, 1000, 70001):
+                    one(hidx, T + da, T + da + w)
+                    res["evals"] += 1
+                    res["far_from_zero"] = res.get("far_from_zero", 0) + 1
     for _ in range(task.get("random", 500)):
         hidx = rnd.choice(sorted(names))
         a = rnd.randint(0 if names[hidx] == "min_cost" else -40, 40)
@@ -262,6 +272,7 @@ def aggregate(rep, jobs):
         rep.count("unit.heuristic_calls", r["calls"])
         rep.count("unit.backtracks", r["backtracks"])
         rep.count("unit.var_heuristic_calls", r["var_calls"])
+        rep.count("unit.decisions_far_from_zero", r.get("far_from_zero", 0))
         rep.count("unit.calls_" + r["mode"], r["calls"])
         for k, v in r["per_heuristic"].items():
             rep.count("unit.heuristic." + k, v)
